@@ -299,6 +299,53 @@ pub fn shrink_case(mut case: Case, first: &Outcome, budget: usize) -> (Case, Out
                 }
             }
         }
+        // 1a. remove threads that have nothing left to do (never the finalizer), renumbering the
+        // references to the threads behind them
+        let mut t = case.prog.threads.len();
+        while t > 1 && runs < budget {
+            t -= 1;
+            if !case.prog.threads[t].ops.is_empty() || !case.prog.threads[t].dtor_ops.is_empty() || case.prog.threads.len() <= 2 {
+                continue;
+            }
+            if let Some(f) = &case.spec.freeze {
+                if f.keep as usize >= t {
+                    continue;
+                }
+            }
+            if let crate::rt::Policy::Stall { victim, .. } | crate::rt::Policy::Burst { reader: victim, .. } = &case.spec.policy {
+                if *victim as usize >= t {
+                    continue;
+                }
+            }
+            let mut c = case.clone();
+            c.prog.threads.remove(t);
+            let fix = |x: &mut u8| {
+                if *x as usize > t {
+                    *x -= 1;
+                } else if *x as usize == t {
+                    *x = 0;
+                }
+            };
+            for th in c.prog.threads.iter_mut() {
+                if let Some((d, _)) = &mut th.after {
+                    if *d as usize == t {
+                        th.after = None;
+                    } else if *d as usize > t {
+                        *d -= 1;
+                    }
+                }
+                for op in th.ops.iter_mut() {
+                    if let crate::prog::Op::SendHandle(_, to) | crate::prog::Op::SendGuard(_, to) = op {
+                        fix(to);
+                    }
+                }
+            }
+            if let Some(o) = fails_same(&c, &oracle, &mut runs) {
+                case = c;
+                best_out = o;
+                progress = true;
+            }
+        }
         // 1b. lower numeric arguments (Hold n, TempCont n)
         for t in 0..case.prog.threads.len() {
             for i in 0..case.prog.threads[t].ops.len() {
